@@ -487,6 +487,8 @@ async fn fn_independent_pre(
         debug!("Using preprocessing without trusted dealer, generating delta and random shares");
         random_shares = FileOrMemBuf::new(ctx.tmp_dir, secret_bits)?;
         delta = Delta(random());
+        #[cfg(feature = "__verif")]
+        crate::verif::probe("delta", p_own, &delta.0.to_le_bytes());
         shared_two_by_two = Some(shared_rng_pairwise(channel, p_own, p_max).await?);
         multi_shared_rand = Some(shared_rng(channel, p_own, p_max).await?);
         for chunk_size in chunk_size_iter(secret_bits, ctx.random_shares_batch_size()) {
